@@ -207,6 +207,7 @@ pdgstrf(superlumt_options_t *superlumt_options, SuperMatrix *A, int_t *perm_r,
     
     /* Create nproc threads for concurrent factorization. */
     thread_id = (pthread_t *) SUPERLU_MALLOC(nprocs * sizeof(pthread_t));
+    if ( !thread_id ) SUPERLU_ABORT("SUPERLU_MALLOC fails for thread_id[]");
     
     for (i = 0; i < nprocs; ++i) {
 	if ( iinfo = pthread_create(&thread_id[i],
@@ -276,6 +277,7 @@ pdgstrf(superlumt_options_t *superlumt_options, SuperMatrix *A, int_t *perm_r,
     
     /* Create nproc threads for concurrent factorization. */
     thread_id = (pthread_t *) SUPERLU_MALLOC(nprocs * sizeof(pthread_t));
+    if ( !thread_id ) SUPERLU_ABORT("SUPERLU_MALLOC fails for thread_id[]");
     
     for (i = 0; i < nprocs; ++i) {
 	if ( (iinfo = pthread_create(&thread_id[i],
